@@ -418,8 +418,13 @@ func (c *Checker) decodeShape(sh s35Shape) (string, *Summary, *s35X) {
 	}
 	m := &mism{}
 	n := &nav{sum.in, sum.Out}
+	snap := n.st.clone()
 	compareSignal(n, sum.RetN(0), sh, x, m)
 	compareDecoded(n, sum.RetN(0), x, sum.Params[0].(*SliceV).Obj, m)
+	// the getters only report: nothing that existed after decoding is changed by them
+	if ch := n.changedSince(snap); len(ch) > 0 && m.first == "" {
+		m.add("the getters modify the decoded signal: %v", ch)
+	}
 	return m.first, sum, x
 }
 
